@@ -41,7 +41,7 @@ def split_cases(path):
 
 def case_input_lines(lines):
     """the lines that define a case (setup + ops), without observations"""
-    return [l for l in lines if l.split(" ", 1)[0] in ("CASE", "SYS", "USR", "ABBR", "SYMSEL", "MODE", "LAYOUT", "INIT", "OP")]
+    return [l for l in lines if l.split(" ", 1)[0] in ("CASE", "CAPI", "SYS", "USR", "ABBR", "SYMSEL", "MODE", "LAYOUT", "INIT", "OP")]
 
 
 def run_case_lines(lines, work, tag="one"):
@@ -253,7 +253,7 @@ def parse_cases(path):
                 step = None
             elif cur is None:
                 continue
-            elif tag in ("SYS", "USR", "ABBR", "SYMSEL", "MODE", "LAYOUT", "INIT"):
+            elif tag in ("CAPI", "SYS", "USR", "ABBR", "SYMSEL", "MODE", "LAYOUT", "INIT"):
                 cur["setup"].append(line)
             elif tag == "OP":
                 step = Step(rest)
